@@ -33,7 +33,7 @@ CHECKS = {
     'C12': (
         'Coq proof that the code\'s activity-on-arc computation equals the longest-chain characterisation + differential correspondence on generated WBSs',
         'Theorems (Props_C12.v): earliest finish / tail are maximal chain lengths, slack of the modelled network computation = '
-        'L - (ef + tail - d), critical set exact, non-empty, expansion of summary links exact, unit independence; the model is the '
+        'L - (ef + tail - d), critical set exact, non-empty, expansion of summary links exact, unit independence, independence of the topological order (C12_order_independent), a verified topological sort (C12_topo_sound/_complete: acyclic <-> an order exists, C12_wbs_any_order); the model is the '
         'functional specification and is compared with WBS.critical_path() on generated acyclic WBSs (exact rationals).',
         'Trusted: Coq kernel, hand-written model of the repaired calculator, the harness\'s independent expansion to a leaf DAG; '
         'recursion depth and the end_date branch are not modelled.',
@@ -58,16 +58,16 @@ CHECKS = {
     'C09': (
         'Coq proof of an invariant of the abstract scheduling machine refined by the backward pass (deadline, dependencies incl. inherited ones, date encoding, late packing) + reflection of the boolean oracle evaluated on the implementation\'s schedules + exact differential correspondence on the dyadic grid',
         'Theorems (Props_C09.v, closed under the global context; hypotheses WFin w, cap_nonneg, no user-fixed dates, backward = Ok): no task ends after the project end; '
-        'every own or inherited dependency has predecessor end <= successor start (also seen from below a dependant summary); both date formulas for both balance settings; '
+        'every own or inherited dependency has predecessor end <= successor start (also seen from below a dependant summary); both date formulas for both balance settings, leaves without work included; '
         'with balancing on the days between end and due date and between two work days are fully booked in the final ledger; c09_b is equivalent to the Prop statement and the model\'s output passes it. '
         'Tie: oracle evaluated on every schedule the implementation returns, model compared exactly (dates, rows).',
         'Trusted: Coq kernel, the hand-written scheduler model (exact integer arithmetic; float rounding modelled out; exact correspondence only on the dyadic grid), harness incl. capacity tabulation.',
         '4.9'),
     'C10': (
-        'Coq proof about a specification-level model of clone/subtree over the heap model (bijection, source unchanged, disjointness, link selection) + verified boolean oracle and model comparison on snapshots of the implementation; WF of the result and independence under later mutation are decided by the differential run only',
+        'Coq proof about a specification-level model of clone/subtree over the heap model (bijection, source unchanged, disjointness, link selection) + proofs that the result state is well formed and that the two sides are independent under every later public call + verified boolean oracle (sound and complete) and model comparison on snapshots of the implementation',
         'Theorems (Props_C10.v, closed under the global context; hypotheses WF s, sel_ok): C10_faithful (position-wise bijection preserving ids/fields/attributes, owner, parent, sibling order, internal links as sets), '
         'C10_clone (members = WBS.tasks), C10_source (old objects unchanged except outside tasks\' mirror lists which only gain copies), C10_disjoint, C10_subtree (links to non-selected members dropped, outside links kept to the same objects), '
-        'C10_oracle_sound. C10_wf_statement and C10_indep_statement are stated, not proved: wf_b is evaluated on every implementation post-state and both sides are mutated and compared on every case.',
+        'C10_oracle_meaning (clone_spec_b <-> CloneSpec), C10_wf (WF and hid_ids of the state after the call; the bare statement without hid_ids is refuted: C10_wf_refuted), C10_wf_reach, C10_indep (a later public call of any kind on one side leaves every member of the other side unchanged, both directions). hid_ids is evaluated on every generated case.',
         'Trusted: Coq kernel, hand-written model of the repaired clone, harness (state builder, snapshot by identity). Dependency lists compare as sets (the code does not keep their order; the property says "same set"). '
         'del of a built-in field before cloning is excluded.',
         '4.10'),
@@ -92,19 +92,19 @@ CHECKS = {
     'C13': (
         'Coq proof of the CSV codec, field codecs, flatten/rebuild and the composed round trip, fixpoint, BOM and hand-written-file theorems + byte-exact differential correspondence (file bytes = model text, re-read WBS = model) with constants extracted from the source on every run',
         'Theorems (Props_C13.v, closed under the global context): C13_codec (any text incl. delimiter, quotes, CR, LF), C13_fields (ids, dates 1969-2068 by exhaustive sweep, booleans, predecessor lists, floats under the Section hypothesis parse (repr x) = Some x), '
-        'C13_rebuild (assemble (flatten w) = Ok w), C13_roundtrip, C13_fix, C13_bom, C13_handwritten; domain wbs_ok evaluated on every generated case.',
+        'C13_rebuild (assemble (flatten w) = Ok w), C13_roundtrip, C13_fix, C13_bom, C13_handwritten, C13_columns_any_order, C13_missing_optional_column / _required_column, C13_rows_any_order, C13_any_layout (column order, omitted optional columns and row order at once); domain wbs_ok evaluated on every generated case.',
         'Trusted: Coq kernel + vm_compute, hand-written model of csv (excel dialect, ;), strptime/strftime on the canonical form, float repr/float() as a Section hypothesis exercised by the harness; harness.',
         '4.13'),
     'C19': (
         'Coq proof that reference extractors applied to the model\'s output of the three renderers return exactly one entry per task / dependency, that names cannot alter other entries, and that the notebook form is the escaped document + byte-exact differential correspondence with templates and encoders extracted from the source on every run',
         'Theorems (Props_C19.v, closed): C19_gantt, C19_net (+count), C19_json (parses to expected entries, unique link ids, progress in 0..1, no "<"), C19_inject, C19_repr, C19_mermaid_div, C19_dhtmlx_script, C19_source_literals/templates, C19_refuted_* for the unrepaired shapes; '
-        'C19_gantt_each_task_once is partial (regrouping by section being a permutation is stated, proved only without sections).',
+        'C19_gantt_each_task_once (the layout, grouped by section or not, is a permutation of the tasks), C19_gantt_line_count, C19_gantt_no_task_twice.',
         'Trusted: Coq kernel + vm_compute, hand-written model, harness; ASSUMPTIONS: the Mermaid line grammar and entity codes (#NN;), "an HTML element ends at its first closing tag", JSON as json.dumps writes it - no JavaScript engine offline to validate them.',
         '4.19'),
     'C08': (
         'Coq proof of tightness, date encoding, WBS order and removal-independence for the forward pass (machine invariants; order by induction on the recursive pass; independence by a simulation between two runs) + two-way reflection of the oracle + exact differential correspondence (dates, row order) and a direct with/without-task comparison on the implementation',
         'Theorems (Props_C08.v, closed): C08_tight / C08_tight_leaves (balancing on: resource fully booked from the release day up to the last work day, in the FINAL ledger), C08_encode (both date formulas, any clock), C08_order (unlinked leaves served in WBS order), '
-        'C08_indep (balancing off: deleting an isolated task leaves every other task\'s dates unchanged; removal of linked clusters/subtrees not covered), c08_task_b / c08_order_b <-> statements, model output passes the oracle.',
+        'C08_indep / C08_indep_set (balancing off: deleting - or blanking - any unrelated set of tasks, closed under hierarchy and links: isolated leaves, linked clusters, whole subtrees - leaves every other task\'s dates unchanged; the second run need not be assumed), c08_task_b (incl. leaves without work) / c08_order_b <-> statements, model output passes the oracle.',
         SCHED_TRUST + ' Leaves with user-fixed start or end are outside the C08 theorems (free_leaf).', '4.8'),
     'C14': (
         'Coq proof that both scheduler models answer Ok or Err and never Crash under WFin (fuel suffices, no None arithmetic, no empty max/min, divisors positive), that each unschedulable class answers Err and that Err has no other cause (completeness) + outcome-class correspondence incl. an extra stream of unschedulable inputs; recursion depth probed on the implementation (known finding)',
